@@ -159,6 +159,12 @@ HARNESSES.append(
          backends=["default", "kissat"],
          bound="16-block filesystem, arbitrary block_found_map / block_dup_map, one regular indirect-mapped file, 3 calls with symbolic 64-bit block numbers at "
                "logical blocks 0..2, symbolic num_blocks / max_blocks; e2fsck -n"))
+HARNESSES.append(
+    dict(name="p4eamagic", src="p4eamagic.c",
+         funcs=["disconnect_inode"],
+         checks="memsafe", unwind=4, unwindset=["e2fsck_read_inode_full.0:258", "main.0:4"],
+         backends=["default"],
+         bound="one 256-byte inode, every byte symbolic, in a heap buffer of exactly 256 bytes; e2fsck -n"))
 MANIFEST = {
     "text": "Kernel-level slice (partial). Detector completeness against an independent format predicate, bounded-exhaustive: every extent header "
             "violating (magic, entries <= max, max entries fit the node) is rejected by ext2fs_extent_header_verify for every node size; every "
